@@ -76,6 +76,8 @@ CurveEtaTableWithBound(d, njobs, dist, H) ==
     LET dx == DminWithBound(d, njobs, dist, H)
     IN [i \in 1..(H + 1) |-> IF i = 1 THEN 0 ELSE CountWithin(dx, i - 1)]
 
+RunningMax(d) == [i \in 1..Len(d) |-> MaxSeq(SubSeq(d, 1, i))]
+
 \* ---- generic models -------------------------------------------------------
 IsSeqKind(m) == m.k \in {"vec", "slice"}
 
@@ -95,7 +97,7 @@ AddJitter(m, J) ==
 \* kinds for which Eta below is defined ("basic" descriptions)
 RECURSIVE HasSpecEta(_)
 HasSpecEta(m) ==
-    CASE m.k \in {"never", "periodic", "sporadic", "user", "curve"} -> TRUE
+    CASE m.k \in {"never", "periodic", "sporadic", "user", "curve", "citer"} -> TRUE
       [] m.k = "xcurve" -> m.of.k = "curve"
       [] m.k \in {"prop", "jit", "wrap"} -> HasSpecEta(m.of)
       [] m.k = "prop_sporadic" -> TRUE
@@ -114,6 +116,8 @@ EtaTable(m, H) ==
       [] m.k \in {"sporadic", "user"} ->
             [i \in 1..(H + 1) |-> IF i = 1 THEN 0 ELSE CeilDiv(i - 1 + m.J, m.T)]
       [] m.k = "curve" -> CurveEtaTable(m.d, H)
+      \* Curve::from_iter: the distances are first made non-decreasing (running maximum)
+      [] m.k = "citer" -> CurveEtaTable(RunningMax(m.d), H)
       [] m.k = "xcurve" -> CurveEtaTable(m.of.d, H)
       [] m.k \in {"prop", "prop_sporadic"} ->
             LET t == EtaTable(m.of, H + m.J)
